@@ -137,6 +137,9 @@ def run_via_ghe(case, res):
     ref = LG.monthly_reference(loads)
     coords = [(0.0, 0.0), (0.0, 5.0), (5.0, 0.0), (5.0, 5.0)]
     for k, n in enumerate(case["sequence"]):
+        if case.get("leap_year_between") and k > 0:
+            # a design for a leap load year (8784 hourly values) is built in between, as a study over weather years does
+            hybrid.make_hybrid(c06.leapify(loads), 12, years=[2020])
         gf = ghe_factory.table_gfunction(coords, 5.0, [60.0, 97.5, 135.0], 0.075)
         ghe = ghe_factory.make_ghe(coords, H=97.5, loads=loads, months=n, gfunc=gf)
         c1 = dict(case, sequence=case["sequence"][:k + 1])
@@ -233,6 +236,7 @@ def main(run: core.Run, only=None):
     for c in (reps[1], reps[8], reps[15], reps[16]) if run.tier == "quick" else reps[::2]:
         for seq in ([240, 360, 30], [12, 24, 12], [37, 13, 1]):
             via.append(dict(c, via_ghe=True, sequence=seq))
+        via.append(dict(c, via_ghe=True, sequence=[30, 30, 13], leap_year_between=True))
     run.drive(via, family="via-ghe-sequences")
     hists = [[24, 13], [12, 36], [13, 12]] if run.tier == "quick" else [[24, 13], [12, 36], [13, 12], [1, 25], [36, 7], [24, 24], [12, 13, 14]]
     mh = [{"manager_history": h, "load": ld} for h in hists for ld in (("office",) if run.tier == "quick" else ("office", "balanced"))]
